@@ -1228,7 +1228,7 @@ coap_pdu_parse_opt_base(coap_pdu_t *pdu, uint16_t len) {
       res = 0;
     break;
   case COAP_OPTION_URI_QUERY:
-    if (len < 1 || len > 255)
+    if (len > 255)
       res = 0;
     break;
   case COAP_OPTION_HOP_LIMIT:
